@@ -328,6 +328,35 @@ Example C05_example_enomem :
      EWrite 3 2; ERet 3 0; EQ 5; EChunk 0 0 3; EChunk 3 0 2; ECb 0 0 0; ECb 3 0 0; EQ 0].
 Proof. vm_compute. reflexivity. Qed.
 
+(* uv_tcp_close_reset (operation OCloseReset, TCP scripts): refused with UV_EINVAL while a uv_shutdown
+   request is pending, and then every field of the stream is exactly as before (in the implementation
+   this includes SO_LINGER, which the harness reads back after every refused call): the pending writes
+   and the shutdown go on, a later uv_close ends the stream in order.  Accepted otherwise: it is uv_close
+   (all other theorems quantify over scripts containing the operation: every pending request completes
+   exactly once, with UV_ECANCELED). *)
+Theorem C05_close_reset_refused_is_noop :
+  forall s, closing s = false -> shutreq s = true ->
+  same_stream s (api_close_reset s) /\ tr (api_close_reset s) = EReset UV_EINVAL :: tr s /\
+  next_id (api_close_reset s) = next_id s.
+Proof. exact close_reset_refused_is_noop. Qed.
+Print Assumptions C05_close_reset_refused_is_noop.
+
+Theorem C05_close_reset_accepted_is_close :
+  forall s, closing s = false -> shutreq s = false ->
+  api_close_reset s = api_close (ev (EReset 0%Z) s).
+Proof. exact close_reset_accepted_is_close. Qed.
+Print Assumptions C05_close_reset_accepted_is_close.
+
+Example C05_example_close_reset :
+  trace (exec (fun _ => []) (init false [AErr 11] 0%Z [] None false)
+              [OWrite [3]; OShutdown; OCloseReset; ORun; ORun]) =
+    [EWrite 0 3; ERet 0 0; EQ 3; EShut 0; EQ 3; EReset UV_EINVAL; EQ 3; EChunk 0 0 3; ECb 0 0 0; ESysShut 0;
+     EShutCb 0; EQ 0; EQ 0] /\
+  trace (exec (fun _ => []) (init false [AErr 11] 0%Z [] None false)
+              [OWrite [3]; OCloseReset; ORun]) =
+    [EWrite 0 3; ERet 0 0; EQ 3; EReset 0; EQ 3; ECb 0 UV_ECANCELED 0; ECloseCb; EQ 0].
+Proof. split; vm_compute; reflexivity. Qed.
+
 (* The hypotheses are satisfiable / the statements are not vacuous: a run with a
    short write, EAGAIN, EINTR, a zero-length buffer, a queued request, a refused
    try_write and a shutdown. *)
